@@ -46,6 +46,28 @@ def mark(tag: str) -> None:
     _MARKS.append(tag)
 
 
+def bound_int(x, lo: int, hi: int) -> None:
+    """Precondition lo <= x < hi.  Under symbolic execution the constraint is
+    added to the path condition directly (no fork, no dead paths); natively
+    it is an ordinary assume."""
+    try:
+        from crosshair.tracers import NoTracing, is_tracing
+    except ImportError:  # pragma: no cover
+        assume(lo <= x < hi)
+        return
+    if not is_tracing():
+        assume(lo <= x < hi)
+        return
+    with NoTracing():
+        var = getattr(x, 'var', None) if type(x) is not int else None
+        if var is not None:
+            import z3
+            from crosshair.statespace import context_statespace
+            context_statespace().add(z3.And(var >= lo, var < hi))
+            return
+    assume(lo <= x < hi)
+
+
 def require(cond, msg: str, *details) -> None:
     """Assert a property clause."""
     if not cond:
